@@ -9,7 +9,17 @@ namespace Api.Rec
 theorem lock_is_global :
     Generated.rec_wholeBodyUnderLock = true ∧ Generated.rec_lockExpr = "_lock" ∧ Generated.rec_lockDef = "RLock()" ∧ Generated.rec_lockAssignments = 1 ∧
     Generated.rec_decorators = ["cache"] ∧
-    Generated.rec_underLock = "cache, rec_key = (recursion_cache(checker_cls), (tp, conversion))\nif rec_key not in cache:\n    checker_cls(default_conversion).visit_with_conv(tp, conversion)\nreturn cache[rec_key]" := by
+    Generated.rec_underLock = "cache, rec_key = (recursion_cache(checker_cls, default_conversion), (tp, conversion))\nif rec_key not in cache:\n    checker_cls(default_conversion).visit_with_conv(tp, conversion)\nreturn cache[rec_key]" := by
   refine ⟨rfl, ?_, ?_, rfl, ?_, ?_⟩ <;> decide +kernel
+
+/-- The memo of the analysis is one dictionary per (checker class, default conversion): what a type reaches - and so whether it is recursive -
+depends on the default conversion, so an answer recorded under one default conversion is never read under another (the model's cache belongs to
+one analysis context: `Api.Rec` quantifies over one graph).  Every call of `recursion_cache` in the module passes the default conversion of the
+analysis it belongs to. -/
+theorem memo_keyed_by_default_conversion :
+    Generated.rec_memoParams = ["checker_cls", "default_conversion"] ∧ Generated.rec_memoDecorators = ["cache"] ∧
+    Generated.rec_memoCalls = ["recursion_cache(checker_cls, default_conversion)", "recursion_cache(self.__class__, default_conversion)"] ∧
+    Generated.rec_checkerInitParams = ["self", "default_conversion"] := by
+  refine ⟨?_, ?_, ?_, ?_⟩ <;> decide +kernel
 
 end Api.Rec
